@@ -540,6 +540,9 @@ fn boundary_cases(ctx: &Ctx) -> Vec<(Case, bool)> {
 pub fn run(ctx: &Ctx) {
     ctx.set_rule("all strings of length <= 3 over a 50-symbol alphabet of Seed punctuation / keywords / escapes / multi-byte and control characters (exhaustive), random Unicode strings, token-level mutations (delete, duplicate, swap, replace, glue a multi-byte character, control characters) and truncations of the repository's 336 test scripts and of generated programs, unterminated strings / escapes / slots at EOF, invalid UTF-8 inside comments / strings / anywhere, valid printing prefix + broken tail; oracle: never a crash or hang; a front-end rejection has empty stdout, exit 103, exactly one `<path>:<line>:<col>: <message>` with 1 <= line <= lines+1 (and within the broken tail); non-UTF-8 is a read error; beyond the small scope: tokens of up to 5000 characters, 120 nested parentheses, 800 lines, long tokens of every kind (multi-byte text at every alignment around 32..512 bytes) as the unexpected token of a syntax error. Non-trivial = the input is rejected, or was mutated / contains multi-byte or control characters next to tokens; distinct = distinct inputs");
     ctx.replay_corpus(Some(&custom));
+    let hist = crate::props::faults::history_cases("C03", &["syntax"]);
+    ctx.label_n("literal evaluated after similar literals: independent of the history", hist.len() as u64);
+    ctx.judge_all(hist, Via::Cli, None);
     if !worker_available() {
         ctx.note("in-process back-end unavailable: every input goes through the binary, with reduced counts");
     }
